@@ -834,7 +834,12 @@ func (o *ImmutableArray) BinaryOp(op token.Token, rhs Object) (Object, error) {
 	if rhs, ok := rhs.(*ImmutableArray); ok {
 		switch op {
 		case token.Add:
-			return &Array{Value: append(o.Value, rhs.Value...)}, nil
+			// build the (mutable) result in fresh storage so that writing
+			// to it can never reach the immutable operand
+			res := make([]Object, 0, len(o.Value)+len(rhs.Value))
+			res = append(res, o.Value...)
+			res = append(res, rhs.Value...)
+			return &Array{Value: res}, nil
 		}
 	}
 	return nil, ErrInvalidOperator
